@@ -16,6 +16,7 @@ type Isolated struct {
 	errors   []error
 	errorsMU sync.Mutex
 	parent   app.ContextScope
+	stopOnce sync.Once
 }
 
 // NewIsolated create new isolated context scope instance
@@ -72,7 +73,10 @@ func (scp *Isolated) Kill() {
 func (scp *Isolated) Stop() {
 	if !scp.IsDone() {
 		verifhook.Yield("contextscope.stop.gap")
-		close(scp.done)
+		// many goroutines can get here at once: the channel is closed exactly once
+		scp.stopOnce.Do(func() {
+			close(scp.done)
+		})
 	}
 }
 
